@@ -50,6 +50,10 @@ class Eraser {
   er (n, env) {
     if (Array.isArray(n)) return n.map((x) => this.er(x, env))
     if (!isObj(n)) return n
+    // ExprOrSpread: `...temp` re-spreads the fresh array copy the temporary holds
+    if (n.type === undefined && 'spread' in n && 'expression' in n && n.spread && this.isTemp(n.expression)) {
+      return { spread: n.spread, expression: this.useTemp(n.expression, env, true) }
+    }
     switch (n.type) {
       case 'ParenthesisExpression': {
         const inner = n.expression
@@ -233,7 +237,8 @@ class Eraser {
     // every operand handed to the hook must be a literal, an identifier or (...)temporary: nothing is evaluated twice
     for (const a of rest) {
       const e = a.expression
-      const simple = isObj(e) && (e.type === 'Identifier' || /Literal$/.test(e.type) || (e.type === 'TemplateLiteral' && e.expressions.length === 0))
+      // a constant addition ('a' + 'b') has no observable evaluation, so passing it again is harmless
+      const simple = isObj(e) && (e.type === 'Identifier' || isLitSum(e) || (e.type === 'TemplateLiteral' && e.expressions.length === 0))
       if (!simple) { rec.restOk = false; this.problem('hook-arg-not-simple', name, `hook operand ${summ(e)} is an expression that would be evaluated a second time`) }
       if (a.spread && !(this.isTemp(e))) { rec.restOk = false; this.problem('hook-arg-spread', name, `hook operand ...${summ(e)} re-spreads something that is not a temporary`) }
       if (a.spread && this.isTemp(e)) { const b = this.lookup(e.value, env); if (b && !b.spreadOf) this.problem('spread-not-materialised', 'hookarg', `hook operand ...${e.value} spreads a temporary that is not a fresh array copy`) }
@@ -324,7 +329,15 @@ class Eraser {
     }
     if (!ok) {
       rec.restOk = false
-      this.problem('hook-operands', rec.kind + ':' + (got.length < expect.length ? 'missing' : got.length > expect.length ? 'extra' : 'different'),
+      let what = got.length < expect.length ? 'missing' : got.length > expect.length ? 'extra' : 'different'
+      if (what === 'missing') {
+        // which expected operands are absent? (greedy alignment)
+        const missing = []
+        let j = 0
+        for (const ex of expect) { if (j < got.length && !!got[j].spread === !!ex.spread && simpleEq(unparen(got[j].expression), unparen(ex.expression))) j++; else missing.push(ex) }
+        if (j === got.length && missing.length && missing.every((m) => { const e = unparen(m.expression); return isObj(e) && e.type === 'BinaryExpression' && e.operator === '+' })) what = 'missing-plus-operand'
+      }
+      this.problem('hook-operands', rec.kind + ':' + what,
         `hook ${rec.name} receives (${got.map((a) => (a.spread ? '...' : '') + summ(a.expression)).join(', ')}) but the wrapped operation uses (${expect.map((a) => (a.spread ? '...' : '') + summ(a.expression)).join(', ')})`)
     }
   }
@@ -369,6 +382,7 @@ class Eraser {
     for (;;) {
       if (!isObj(node)) break
       if (node.type === 'ParenthesisExpression') { node = node.expression; continue }
+      if (node.type === 'OptionalChainingExpression') { node = node.base; continue } // later link of the same chain, left as written
       if (node.type === 'CallExpression') {
         spine.push(node)
         // optional invocation of a member: t.call(R, A...) with t bound to R.m
@@ -439,10 +453,16 @@ function replaceMarkers (n, t, mk) {
 
 function plainArg (e) { return { spread: null, expression: e } }
 function litEq (a, b) { a = unparen(a); b = unparen(b); return isObj(a) && isObj(b) && a.type === b.type && JSON.stringify(a.value) === JSON.stringify(b.value) }
+function isLitSum (e) {
+  e = unparen(e)
+  if (!isObj(e)) return false
+  if (/Literal$/.test(e.type) && e.type !== 'TemplateLiteral') return true
+  return e.type === 'BinaryExpression' && e.operator === '+' && isLitSum(e.left) && isLitSum(e.right)
+}
 function simpleEq (a, b) {
   if (!isObj(a) || !isObj(b) || a.type !== b.type) return false
   if (a.type === 'Identifier') return a.value === b.value
-  if (/Literal$/.test(a.type)) return JSON.stringify(stripSpans(a)) === JSON.stringify(stripSpans(b))
+  if (isLitSum(a) && isLitSum(b)) return JSON.stringify(stripSpans(a)) === JSON.stringify(stripSpans(b))
   return false
 }
 function stripSpans (n) {
